@@ -26,9 +26,11 @@ import (
 	sdkmath "cosmossdk.io/math"
 	sdk "github.com/cosmos/cosmos-sdk/types"
 	"github.com/ethereum/go-ethereum/common"
+	troncommon "github.com/fbsobreira/gotron-sdk/pkg/common"
 
 	fxtypes "github.com/functionx/fx-core/v8/types"
 	ct "github.com/functionx/fx-core/v8/x/crosschain/types"
+	trontypes "github.com/functionx/fx-core/v8/x/tron/types"
 )
 
 // ---------------------------------------------------------------------------------------------------------
@@ -190,9 +192,43 @@ func plainPerturb(g *gen, s string) []pv {
 	if common.IsHexAddress(s) {
 		out = append(out, pv{"EIP-55 checksummed", common.HexToAddress(s).Hex()}, pv{"address as 32-byte hash", common.HexToHash(s).Hex()})
 	}
+	for _, t := range tronOtherTexts(s) {
+		out = append(out, t)
+	}
 	if strings.Contains(s, "/") {
 		out = append(out, pv{"path segments reversed", reverseSegments(s, "/")}, pv{"trailing slash", s + "/"}, pv{"leading slash", "/" + s},
 			pv{"slashes doubled", strings.ReplaceAll(s, "/", "//")})
+	}
+	return out
+}
+
+// tronOtherTexts: the OTHER well-formed texts of the account a tron address text names.  ValidateTronAddress checks the
+// base58 length (34) and the base58check checksum, not the version byte, and ExternalAddrToAccAddr / ExternalAddrToHexAddr
+// drop the first decoded byte: base58check(v ‖ account) is accepted for every version byte v whose text has 34 characters
+// (0x41 is the real one), and so is base58check(0x00 ‖ b ‖ account) for the few b that keep the length (the account the
+// hex accessor returns is the LAST 20 bytes).  Whatever identifies an address by its parsed form identifies these texts.
+func tronOtherTexts(s string) (out []pv) {
+	if trontypes.ValidateTronAddress(s) != nil {
+		return nil
+	}
+	raw, err := troncommon.DecodeCheck(s)
+	if err != nil || len(raw) < 21 {
+		return nil
+	}
+	acc := raw[len(raw)-20:]
+	dup := map[string]bool{s: true}
+	try := func(how string, payload []byte) {
+		t := troncommon.EncodeCheck(payload)
+		if !dup[t] && trontypes.ValidateTronAddress(t) == nil {
+			dup[t] = true
+			out = append(out, pv{how, t})
+		}
+	}
+	for _, v := range []byte{0x42, 0x40, 0x00, 0x01, 0x10, 0x7f, 0x80, 0x8f, raw[0] + 1, raw[0] ^ 0x20} {
+		try("tron address text with another version byte (same 20 bytes)", append([]byte{v}, acc...))
+	}
+	for _, b := range []byte{0x01, 0x02} {
+		try("tron address text with a 22-byte payload (same last 20 bytes)", append([]byte{0x00, b}, acc...))
 	}
 	return out
 }
@@ -700,6 +736,60 @@ func loadFacts() map[string]factClaim {
 	return res
 }
 
+// typedOnlyFields: per claim type, the fields the handlers read ONLY through a typed address accessor
+// (`GetXAddr(){ExternalAddrToHexAddr#class,X}` in the regenerated handlerView): two texts of one account in such a field are
+// two spellings of one value as far as execution goes; every other field is read as text
+func loadTypedOnly() map[string]map[string]bool {
+	res := map[string]map[string]bool{}
+	p := os.Getenv("VERIF_FACTS")
+	bz, err := os.ReadFile(p)
+	if p == "" || err != nil {
+		return res
+	}
+	var all map[string]json.RawMessage
+	if json.Unmarshal(bz, &all) != nil {
+		return res
+	}
+	var hv map[string][]struct{ Fn, Expr string }
+	if json.Unmarshal(all["C03.handlerView"], &hv) != nil {
+		return res
+	}
+	word := func(expr, f string) bool {
+		for _, w := range strings.FieldsFunc(expr, func(r rune) bool {
+			return !(r == '_' || r >= '0' && r <= '9' || r >= 'a' && r <= 'z' || r >= 'A' && r <= 'Z')
+		}) {
+			if w == f {
+				return true
+			}
+		}
+		return false
+	}
+	for tn, es := range hv {
+		typed, other := map[string]bool{}, map[string]bool{}
+		for _, e := range es {
+			if i := strings.Index(e.Expr, "{ExternalAddrToHexAddr#class,"); i >= 0 && strings.HasSuffix(e.Expr, "}") && strings.Count(e.Expr, "{") == 1 {
+				typed[strings.TrimSuffix(e.Expr[i+len("{ExternalAddrToHexAddr#class,"):], "}")] = true
+			}
+		}
+		for _, e := range es {
+			for f := range typed {
+				if word(e.Expr, f) && !strings.HasSuffix(e.Expr, "{ExternalAddrToHexAddr#class,"+f+"}") {
+					other[f] = true
+				}
+			}
+		}
+		res[tn] = map[string]bool{}
+		for f := range typed {
+			if !other[f] {
+				res[tn][f] = true
+			}
+		}
+	}
+	return res
+}
+
+var typedOnly = loadTypedOnly()
+
 // render prints one argument segment with the real fmt package (nil when the argument is not a plain field)
 func renderSeg(c claim, s factSeg) (string, bool) {
 	if s.Verb == "" {
@@ -717,6 +807,40 @@ func renderSeg(c claim, s factSeg) (string, bool) {
 		v = f.Interface().(sdkmath.Int).String()
 	}
 	return fmt.Sprintf("%"+s.Verb, v), true
+}
+
+// scalarSeg: an argument that is exactly one text / sdkmath.Int / uint64 field of the claim
+func scalarSeg(c claim, s factSeg) bool {
+	if s.Verb == "" || !s.Plain || len(s.Verb) != 1 {
+		return false
+	}
+	f := elem(c).FieldByName(s.Field)
+	return f.IsValid() && (f.Kind() == reflect.String || f.Kind() == reflect.Uint64 || f.Type() == tInt)
+}
+
+// setSegText sets the field of a scalar argument to the value whose rendering is `text` (false when there is none)
+func setSegText(c claim, s factSeg, text string) bool {
+	f := elem(c).FieldByName(s.Field)
+	switch {
+	case f.Kind() == reflect.String:
+		f.SetString(text)
+	case f.Kind() == reflect.Uint64:
+		var x uint64
+		if _, err := fmt.Sscan(text, &x); err != nil || fmt.Sprint(x) != text {
+			return false
+		}
+		f.SetUint(x)
+	case f.Type() == tInt:
+		x, ok := new(big.Int).SetString(text, 10)
+		if !ok || x.String() != text || x.BitLen() > 256 {
+			return false
+		}
+		f.Set(reflect.ValueOf(sdkmath.NewIntFromBigInt(x)))
+	default:
+		return false
+	}
+	got, ok := renderSeg(c, s)
+	return ok && got == text
 }
 
 // formatResplit: for every pair of text fields i < j of the extracted path, move the rendered text between them (plus a
@@ -759,6 +883,27 @@ func (r *run) formatResplit(g *gen, k *kind, base claim) {
 			elem(b).FieldByName(fi).SetString(x + mid + y1)
 			r.out.Count("resplit:" + k.tag)
 			r.pair(k, "the split of "+fi+"/"+fj, a, b)
+		}
+	}
+	// two scalar arguments printed with NOTHING between them (`%s%s`, `%s%d`, `%v%s` … — a separator lost in a rewrite of the
+	// format): a short piece moves across the boundary, each side re-read in its own type (text as it is, numbers in
+	// canonical decimal) — hex text next to a decimal number share the digits, two texts share everything
+	for i := 0; i+1 < len(segs); i++ {
+		if !scalarSeg(base, segs[i]) || !scalarSeg(base, segs[i+1]) || notEffect[segs[i].Field] || notEffect[segs[i+1].Field] || segs[i].Field == segs[i+1].Field {
+			continue
+		}
+		ti, ok1 := renderSeg(base, segs[i])
+		tj, ok2 := renderSeg(base, segs[i+1])
+		if !ok1 || !ok2 {
+			continue
+		}
+		for _, piece := range []string{"1", "12", "40", "7", "ab", "9000", hx_pick(g, []string{"2", "34", "c0", "A", "5678"})} {
+			a, b := k.clone(base), k.clone(base)
+			if !setSegText(a, segs[i], ti+piece) || !setSegText(b, segs[i+1], piece+tj) {
+				continue
+			}
+			r.out.Count("resplit:adjacent:" + k.tag)
+			r.pair(k, "the split of "+segs[i].Field+"/"+segs[i+1].Field+" (printed without a separator)", a, b)
 		}
 	}
 	// a number immediately followed by a text field (`%d%s`): a digit moves across the boundary
